@@ -53,6 +53,8 @@ def sm_corpus(chk, quick):
         b"package x\n\nimport (\n\t\"fmt\"\n\tstr \"strings\"\n)\n\nvar a = 1\n\n@goht A(\n\ta string,\n\tb int,\n) {\n\t%p{a: #{foo(\n\t\ta)}, b: \"c\"} t #{a} #{%d b}\n\t- if b > 1\n\t\t= a\n\t- else if b < 0\n\t\t= str.ToUpper(a)\n\t%i[obj]{class: #{a, \"k\"}}\n\t= @render B()\n}\n",
         "package x\n@goht A(s string) {\n\t%p hé #{s} ☢ #{\"é\" + s} x\n\t%b{t: #{\"世\" + s}, u: #{s}}\n}\n".encode(),
         b"@goht A(s string) {\n\t%p\n\t\t= %s s\n\t\t= %d d\n\t\tx #{%v v} and #{%q s}\n\t%i{a: #{%s s}, b: #{%d d}} #{%s s}\n}\n",
+        # witness of known finding F15 for C16: byte-counted entries of the first fragment run into the second
+        "@goht A(s string) {\n\t%p t#{\"世界\"}#{s}\n}\n".encode(),
     ]
     return base
 
@@ -137,8 +139,15 @@ def run(chk, want=("c16",), level_note=LEVEL_NOTE):
             chk.count("entries", len(ri.s2t))
             if "c16" in want and rm is not None and rm.cls == "done" and rm.unique == "overlap":
                 # the hypothesis of the round-trip theorems does not hold for this file's entries
-                chk.broke("proof", "C16_round_trip hypothesis keys_unique", "two insertions share a template or a generated position",
-                          input_hex=hx(c), input_text=c.decode("utf-8", "replace")[:600])
+                src_lines = c.split(b"\n")
+                mapped_nonascii = any(0 <= sl < len(src_lines) and any(b >= 0x80 for b in src_lines[sl]) for (sl, sc) in ri.s2t.keys())
+                if mapped_nonascii:
+                    # known finding F15: byte-counted entries of a fragment with a multi-byte rune run into the next fragment
+                    known_hit = True
+                    chk.count("known-F15-overlap")
+                else:
+                    chk.broke("proof", "C16_round_trip hypothesis keys_unique", "two insertions share a template or a generated position",
+                              input_hex=hx(c), input_text=c.decode("utf-8", "replace")[:600])
             elif "c16" in want and rm is not None:
                 chk.count("keys_unique-holds")
             fails, txt = check_tables(chk, c, ri, rm if not compilecmp.diff(rm, ri, ("s2t", "t2s", "ctext")) else None, want)
